@@ -32,7 +32,7 @@ KEEP = 4            # constant bound on per-request objects alive after any numb
 JOIN_TIMEOUT = 15   # seconds; a thread that does not finish is reported, never waited for
 
 KINDS = ['cookie', 'header', 'status', 'notfound', 'notallowed', 'badpath', 'badchunk', 'oversized',
-         'badmultipart', 'crash', 'redirect', 'respcookie', 'static', 'echo', 'echo_empty', 'jsonerr']
+         'badmultipart', 'crash', 'redirect', 'respcookie', 'static', 'echo', 'echo_empty', 'jsonerr', 'badvalue', 'badchunk_json']
 
 BOUND = ('histories r1..rk over %d request kinds (%s): every sequence of length k<=3 (quick) / k<=4 (thorough) with '
          'debug off on the building thread; additionally every sequence of length <=2 (quick) / <=3 (thorough) for '
@@ -174,6 +174,13 @@ def make_request(kind, rid):
         # truncated: the part has no terminating delimiter
         body = b'--BB\r\nContent-Disposition: form-data; name="a"\r\n\r\nvalue-' + rid.encode()
         return make_environ('/form/' + rid, 'POST', body=body, content_type='multipart/form-data; boundary=BB')
+    if kind == 'badvalue':
+        # a text field that is not UTF-8 and carries the identity: the parser's error message quotes the bytes
+        body = b'--BB\r\nContent-Disposition: form-data; name="a"\r\n\r\n\xff' + rid.encode() + b'\r\n--BB--\r\n'
+        return make_environ('/form/' + rid, 'POST', body=body, content_type='multipart/form-data; boundary=BB')
+    if kind == 'badchunk_json':
+        return make_environ('/body/' + rid, 'POST', body=b'zz\r\n' + rid.encode() + b'\r\n0\r\n\r\n', chunked=True,
+                            headers={'Accept': 'application/json'})
     if kind == 'crash':
         return make_environ('/crash/' + rid)
     if kind == 'redirect':
@@ -238,13 +245,14 @@ def run_case(case):
     kinds = case['kinds']
     debug = case['debug']
     # identities of different lengths: a length that sticks from an earlier response (Content-Length) must show
-    rids = ['r%d' % i + 'x' * i for i in range(len(kinds))]
+    rids = ['q7rid%dz' % i + 'x' * i for i in range(len(kinds))]
     last_kind, last_rid = kinds[-1], rids[-1]
 
     # 1. the history, one application, one thread
     app = make_app(debug)
 
     inconsistent = []
+    leaks = []
 
     def history():
         out = None
@@ -254,6 +262,12 @@ def run_case(case):
             # every response must be consistent in itself: a Content-Length that stuck from an earlier response
             # (e.g. on an error object shared by all requests) does not describe this body.  (The comparison with a
             # fresh application below cannot see that: process-wide shared objects are shared by the reference too.)
+            # nothing that identifies an EARLIER request may show up in this response (checked directly: a reference
+            # application in the same process shares the process-wide objects and cannot reveal such a leak)
+            blob = (out['body'] or b'') + repr(out['headers']).encode('utf8', 'replace') + str(out['status']).encode()
+            for earlier in rids[:rids.index(rid)]:
+                if earlier.encode() in blob:
+                    leaks.append(dict(kind=kind, rid=rid, shows=earlier, status=out['status']))
             cl = [v for k, v in out['headers'] if k.lower() == 'content-length']
             code = int(str(out['status']).split()[0]) if out['status'] else 0
             if (cl and out['body'] is not None and env['REQUEST_METHOD'] != 'HEAD' and code >= 200
@@ -271,6 +285,8 @@ def run_case(case):
 
     if inconsistent:
         return fail('H2.content_length_of_another_response', responses=inconsistent)
+    if leaks:
+        return fail('H3.earlier_request_shows_in_response', leaks=leaks[:4])
 
     # 2. the same request alone on a fresh application (building thread)
     ref_main = fingerprint(serve(make_app(debug), make_request(last_kind, last_rid)))
